@@ -153,7 +153,11 @@ func drawOffer(t *rapid.T) offer {
 
 func drawHeaders(t *rapid.T, label string, long bool) [][2]string {
 	var hs [][2]string
-	for i := rapid.IntRange(0, 2).Draw(t, label+".n"); i > 0; i-- {
+	count := rapid.IntRange(0, 2).Draw(t, label+".n")
+	if long && rapid.IntRange(0, 15).Draw(t, label+".many") == 0 {
+		count = rapid.IntRange(20, 100).Draw(t, label+".manyn") // many header lines: several buffer refills on both sides
+	}
+	for i := count; i > 0; i-- {
 		n := rapid.IntRange(0, 60).Draw(t, label+".len")
 		if long && rapid.IntRange(0, 3).Draw(t, label+".long") == 0 {
 			n = rapid.SampledFrom([]int{70, 300, 4090, 4200, 9000}).Draw(t, label+".longlen")
